@@ -195,6 +195,9 @@ func runC12(cs *vrt.Case) {
 		return new(big.Int).Mod(v, new(big.Int).Lsh(big.NewInt(1), uint(bits)))
 	}
 	fam := c12SSA[op]
+	if !boolOp {
+		c12History(cs, op, T, w, signed, as, bs, class)
+	}
 	pairNo := 0
 	for _, a := range as {
 		for _, b := range bs {
@@ -281,6 +284,127 @@ func runC12(cs *vrt.Case) {
 			}
 		}
 	}
+}
+
+// c12History: folding must not depend on what was folded before. A function
+// applies the case's operator to two constants and then a second operator to
+// the same two constants, and returns both results and the constants
+// themselves. Each returned value is compared with the run-time form (the
+// property) and with the same expression folded alone in a fresh program: a
+// value that differs from the run-time form AND from its isolated fold cannot
+// be one of the (deterministic, per-operator) known folding classes - an
+// earlier fold changed a constant or left state behind.
+func c12History(cs *vrt.Case, op, T string, w int, signed bool, as, bs []*big.Int, class string) {
+	isCmpOp := func(o string) bool { return strings.ContainsAny(o, "<>=!") && o != "<<" && o != ">>" }
+	src := func(o string) (string, string, bool) { // expression, result type, needs b != 0
+		switch o {
+		case "neg":
+			return "-a", T, false
+		case "<<", ">>":
+			return fmt.Sprintf("a %s %d", o, w/2), T, false
+		case "/", "%":
+			return "a " + o + " b", T, true
+		}
+		if isCmpOp(o) {
+			return "a " + o + " b", "bool", false
+		}
+		return "a " + o + " b", T, false
+	}
+	e1, t1, nz1 := src(op)
+	seconds := []string{"+", "-", "*", "&", "|", "^", "==", "!=", "<", ">=", "neg", "<<", ">>", "/", "%", "&^", "<=", ">"}
+	mask := func(v *big.Int) *big.Int { return new(big.Int).Mod(v, new(big.Int).Lsh(big.NewInt(1), uint(w))) }
+	fits := func(v *big.Int) bool { // representable in T
+		if signed {
+			lim := new(big.Int).Lsh(big.NewInt(1), uint(w-1))
+			return v.Cmp(new(big.Int).Neg(lim)) >= 0 && v.Cmp(lim) < 0
+		}
+		return v.Sign() >= 0 && v.BitLen() <= w
+	}
+	iso := map[string]*big.Int{} // isolated fold of (expression, a, b); nil = not available
+	isoFold := func(e, t string, a, b *big.Int) *big.Int {
+		k := e + "|" + a.String() + "|" + b.String()
+		if v, ok := iso[k]; ok {
+			return v
+		}
+		iso[k] = nil
+		pc := fmt.Sprintf("package main\n\nfunc main(x uint8, y uint8) %s {\n\ta := %s\n\tb := %s\n\tr := %s\n\treturn r\n}\n", t, c12Lit(T, a), c12Lit(T, b), e)
+		if e == "a" || e == "b" {
+			pc = fmt.Sprintf("package main\n\nfunc main(x uint8, y uint8) %s {\n\ta := %s\n\tb := %s\n\treturn %s\n}\n", t, c12Lit(T, a), c12Lit(T, b), e)
+		}
+		c, _, err, pan := compileWithSSA(pc, nil, nil)
+		if err != nil || pan != nil || c == nil {
+			return nil
+		}
+		o, err := refc.EvalFlat(c, []*big.Int{big.NewInt(0)})
+		if err != nil {
+			return nil
+		}
+		iso[k] = o[0]
+		return o[0]
+	}
+	n := 0
+	for ai, a := range as {
+		for bi, b := range bs {
+			if ai >= 4 || bi >= 4 || !fits(a) || !fits(b) {
+				continue
+			}
+			for k := 0; k < 3; k++ {
+				op2 := seconds[(ai*7+bi*3+k*5+w)%len(seconds)]
+				e2, t2, nz2 := src(op2)
+				if (nz1 || nz2) && mask(b).Sign() == 0 {
+					continue
+				}
+				n++
+				pc := fmt.Sprintf("package main\n\nfunc main(x uint8, y uint8) (%s, %s, %s, %s) {\n\ta := %s\n\tb := %s\n\tr1 := %s\n\tr2 := %s\n\treturn r1, r2, a, b\n}\n", t1, t2, T, T, c12Lit(T, a), c12Lit(T, b), e1, e2)
+				pr := fmt.Sprintf("package main\n\nfunc main(a %s, b %s) (%s, %s, %s, %s) {\n\tr1 := %s\n\tr2 := %s\n\treturn r1, r2, a, b\n}\n", T, T, t1, t2, T, T, e1, e2)
+				desc := map[string]any{"P_const": pc, "P_run": pr, "a": a.String(), "b": b.String(), "first": op, "second": op2}
+				cc, _, errC, panC := compileWithSSA(pc, nil, nil)
+				if panC != nil {
+					if panC.InMPC {
+						cs.Violate("C12|compiler-panic|"+class+"|"+trimNum(firstWords(panC.Value, 6)), "compiler crashed while folding a sequence: "+panC.Value, map[string]any{"case": desc, "stack": panC.Stack})
+					}
+					continue
+				}
+				if errC != nil {
+					cs.Count("history_rejected", 1)
+					continue
+				}
+				cr, _, errR, panR := compileWithSSA(pr, nil, nil)
+				if errR != nil || panR != nil {
+					cs.Count("history_run_form_not_compilable", 1)
+					continue
+				}
+				oc, e1x := refc.EvalFlat(cc, []*big.Int{big.NewInt(0)})
+				or, e2x := refc.EvalFlat(cr, []*big.Int{new(big.Int).Or(mask(a), new(big.Int).Lsh(mask(b), uint(w)))})
+				if e1x != nil || e2x != nil {
+					continue
+				}
+				vc, vr := refc.SplitOut(cc.Outputs, oc[0]), refc.SplitOut(cr.Outputs, or[0])
+				if len(vc) != 4 || len(vr) != 4 {
+					continue
+				}
+				cs.Evals++
+				cs.Count("history_sequences", 1)
+				exprs := []string{e1, e2, "a", "b"}
+				typs := []string{t1, t2, T, T}
+				names := []string{"first result", "second result", "operand a", "operand b"}
+				for i := range vc {
+					if vc[i].Cmp(vr[i]) == 0 {
+						continue
+					}
+					alone := isoFold(exprs[i], typs[i], a, b)
+					if alone == nil || alone.Cmp(vc[i]) == 0 {
+						cs.Count("history_differs_like_isolated_fold", 1)
+						continue // the per-operator enumeration judges this
+					}
+					what := []string{op, op2, "operand", "operand"}[i]
+					cs.Violate("C12|fold-depends-on-history|after "+op+"|"+what, fmt.Sprintf("%s of `%s; %s` on constants a=%s b=%s (%s): folded in sequence gives %s, folded alone %s, the circuit on the same run-time values %s", names[i], e1, e2, a, b, T, vc[i].Text(10), alone.Text(10), vr[i].Text(10)),
+						map[string]any{"case": desc})
+				}
+			}
+		}
+	}
+	_ = n
 }
 
 func firstWords(s string, n int) string {
